@@ -515,6 +515,19 @@ def directed_cases():
                              [("toSchema", 2, {}), ("deserialize", tgt, {})]):
                     out.append({"suite": "world", "types": [], "n": -1, "ops": defs + [
                         dict({"op": k, "c": c_, "probe": "valid"}, **extra) for k, c_, extra in hist]})
+    # region of the open finding mro-resolved-serialize-skips-generation: a FastSerializable owner of a class whose
+    # own serializer cannot be generated (field 11 = AnyOf of two types), whose base class is used first
+    gold_ = cls("Gold", [fld("bad", {"prim": 11})], fast=True, parent={"kind": "inherit", "c": 0})
+    for arr in (False, True):
+        ref = fld("b", {"ref": 1, "arr": arr})
+        if not arr:
+            ref["opt"] = True
+        own_ = cls("Order", [fld("n", {"prim": 0}), ref], fast=True)
+        for hist in ([("construct", 0, "valid")], [("createSerializer", 0, "valid")],
+                     [("construct", 0, "valid"), ("construct", 2, "required")]):
+            out.append({"suite": "world", "types": [], "n": -1, "ops": [
+                {"op": "define", "c": 0, "src": base_}, {"op": "define", "c": 1, "src": gold_},
+                {"op": "define", "c": 2, "src": own_}] + [{"op": k, "c": c_, "probe": pr} for k, c_, pr in hist]})
     # region: AnyOf fields whose options overlap and normalise differently, inherited / re-used by a derived
     # class; the derived class is used with a value only the later option accepts, then the base class is used
     for tag in (27, 28, 29):
@@ -606,17 +619,19 @@ def slice_ops(case, keep):
 
 
 def oracle_only(case):
-    """histories outside the model's vocabulary (see gen_case): judged on the real code alone"""
+    """histories outside the model's vocabulary: judged on the real code alone.  Nested fast serialization
+    (references to FastSerializable classes, optional references, create_serializer flags, minimal instances,
+    owner-side nested mappers) IS in the model; positional arrays of FastSerializable item classes and classes
+    written to a module file are not"""
+    if case.get("scoped"):
+        return False       # (modelled as before: plain references by name)
     fastc = {op["c"] for op in case["ops"] if op["op"] == "define" and op["src"].get("fast")}
     for op in case["ops"]:
         if op["op"] == "define":
             for f in op["src"]["fields"]:
                 k = f["kind"]
-                if f.get("opt") or f.get("submap") or ("ref" in k and k["ref"] in fastc) \
-                        or ("refs" in k and set(k["refs"]) & fastc):
+                if "refs" in k and set(k["refs"]) & fastc:
                     return True
-        elif op.get("flags") or op.get("probe") == "required":
-            return True
     return False
 
 
@@ -701,7 +716,9 @@ def wire_field(f, prims):
     key = f.get("key") or f["name"]
     return {"name": f["name"], "kind": kind, "default": bool(f.get("default")), "key": key,
             "camelKey": camel(key), "camelName": camel(f["name"]),
-            "fastOk": p["fastOk"], "trustedOk": p["trustedOk"], "schemaOk": p["schemaOk"], "inlines": p["inlines"]}
+            "fastOk": p["fastOk"], "trustedOk": p["trustedOk"], "schemaOk": p["schemaOk"], "inlines": p["inlines"],
+            "arr": bool(k.get("arr")), "optional": bool(f.get("opt")),
+            "subKeys": sorted([a, b] for a, b in (f.get("submap") or {}).items())}
 
 
 def flat_fields(srcs, c):
@@ -721,19 +738,30 @@ def flat_fields(srcs, c):
     return base + own
 
 
-def valid_args(srcs, c):
-    """the abstract image of `Env.valid_kwargs` (what the executor passes for probe 'valid')"""
+def valid_args(srcs, c, probe="valid", pre=None):
+    """the abstract image of `Env.valid_kwargs` / `Env.required_kwargs` (what the executor passes for the probes
+    'valid', 'valid1' and 'required'); `pre` receives, innermost first, the instances of Structure classes the
+    executor constructs for these arguments: [class, its arguments]"""
     kw = []
     for f in flat_fields(srcs, c):
         k = f["kind"]
+        if probe == "required" and (f.get("opt") or f.get("default")):
+            continue
         if "prim" in k:
             a = {"prim": k["prim"], "valid": True}
         elif "wrap" in k:
             a = {"inst": k["wrap"]}
         elif "refs" in k:
             a = {"structs": list(k["refs"])}
+            if pre is not None:
+                for r in k["refs"]:
+                    pre.append([r, valid_args(srcs, r, "valid", pre)])
+        elif probe == "required" and k.get("arr"):
+            a = {"noItems": True}
         else:
             a = {"struct": k["ref"]}
+            if pre is not None:
+                pre.append([k["ref"], valid_args(srcs, k["ref"], "valid", pre)])
         kw.append([f["name"], a])
     return kw
 
@@ -762,8 +790,15 @@ def line(case, impl):
             ops.append(op)
         else:
             o = {"op": op["op"], "c": op["c"], "camel": bool(op.get("camel"))}
+            if op.get("flags"):
+                o["flags"] = op["flags"]
             if op["op"] in ("construct", "serialize", "deserialize", "trusted") and op["c"] in srcs:
-                o["kw"] = [] if (op["op"] == "construct" and op.get("probe") == "empty") else valid_args(srcs, op["c"])
+                if op["op"] == "construct" and op.get("probe") == "empty":
+                    o["kw"] = []
+                else:
+                    pre = []
+                    o["kw"] = valid_args(srcs, op["c"], op.get("probe") or "valid", pre)
+                    o["pre"] = pre
             ops.append(o)
     return {"suite": "world", "ops": ops, "closures": impl.get("closures", {})}
 
@@ -800,6 +835,8 @@ def finding_key(case, c, impl, model):
         return "name-keyed:aggregated_mapper_by_class"
     if "required-written" in causes:
         return "mutates-cls._required:structure_to_schema"
+    if "instantiable" in causes:
+        return "mro-resolved-serialize-skips-generation:_verify_is_fast_serializable"
     if causes:
         return "model-predicted:" + "+".join(sorted(set(causes)))
     return "unexplained-interference"
@@ -839,6 +876,22 @@ def judge(case, impl, model):
             if bool(ms.get("accepted")) and sorted(ms.get("keys", [])) != rs["keys"]:
                 msgs.append(f"step {i} serialize c={op['c']} camel_case_convert={bool(op.get('camel'))}: "
                             f"emitted keys {rs['keys']} real, {sorted(ms.get('keys', []))} model")
+            if bool(ms.get("accepted")) and "doc" in rs and ms.get("doc") not in (None, "slow") \
+                    and not doc_match(ms["doc"], rs["doc"]):
+                msgs.append(f"step {i} serialize c={op['c']}: x.serialize() has shape {json.dumps(rs['doc'], sort_keys=True)[:200]} "
+                            f"real, {json.dumps(ms['doc'], sort_keys=True)[:200]} model")
+        elif op["op"] == "createSerializer" and rs.get("done") and ms is not None and ms.get("done"):
+            if bool(ms.get("accepted")) != ("err" not in rs):
+                msgs.append(f"step {i} create_serializer c={op['c']} {op.get('flags') or ''}: real "
+                            f"{'raised ' + rs['err'] if 'err' in rs else 'got through'}, model accepted={ms.get('accepted')}")
+        if op["op"] == "construct" and rs.get("done") and ms is not None and ms.get("done") \
+                and op.get("probe") != "empty" and is_fast_class(case, op["c"]):
+            if bool(ms.get("instantiable")) != ("err" not in rs) and rs.get("err") in (None, "TypeError"):
+                msgs.append(f"step {i} {op['op']} c={op['c']}: real {'raised ' + str(rs.get('err')) if 'err' in rs else 'instantiated'}, "
+                            f"model instantiable={ms.get('instantiable')}")
+        if ms is not None and "sers" in rs and "sers" in ms and sorted(ms["sers"]) != rs["sers"]:
+            msgs.append(f"step {i} {op['op']} c={op.get('c')}: classes with their own generated serializer {rs['sers']} real, "
+                        f"{sorted(ms['sers'])} model")
         elif op["op"] == "toSchema" and rs.get("done") and "required" in rs:
             if sorted(ms.get("requiredAfter") or []) != rs["required"]:
                 msgs.append(f"step {i} toSchema c={op['c']}: _required after = {rs['required']} real, {sorted(ms.get('requiredAfter') or [])} model")
@@ -888,6 +941,22 @@ def judge(case, impl, model):
         key = finding_key(case, c, impl, model)
         fails.append((key, f"class {c} ({case_name(case, c)}) behaves differently after the history than alone: {d}"))
     return ("; ".join(msgs[:4]) if msgs else None), fails
+
+
+def doc_match(m, r):
+    """model document shape against the real one; "?" (a one-field class, which may serialize to its bare value)
+    matches anything"""
+    if m == "?":
+        return True
+    if isinstance(m, dict):
+        return isinstance(r, dict) and sorted(m) == sorted(r) and all(doc_match(m[k], r[k]) for k in m)
+    if isinstance(m, list):
+        return isinstance(r, list) and len(m) == len(r) and all(doc_match(a, b) for a, b in zip(m, r))
+    return m == r
+
+
+def is_fast_class(case, c):
+    return bool(srcs_of(case).get(c, {}).get("fast"))
 
 
 def srcs_of(case):
